@@ -128,49 +128,34 @@ theorem run_eq_feed (d : Bytes → Step F) (hs : Stable d) (chunks : List Bytes)
   | nil => simp [run, feed_init_nil]
   | cons x xs => simp only [run, List.foldl_cons, List.flatten_cons]; exact foldl_feed d hs xs _ x
 
-/-- what the regenerated length test must satisfy: it is `len < n` up to reformulation -/
-structure ShortOk (short : Nat → Nat → Bool) : Prop where
-  le   : ∀ l n, short l n = false → n ≤ l
-  mono : ∀ l n k, short l n = false → short (l + k) n = false
-
-theorem envelope_stable (h : Bytes → Hdr) (hh : HdrStable h) (short : Nat → Nat → Bool) (hso : ShortOk short)
-    (ok : Bytes → Bool) : Stable (envelope h short ok) := by
+theorem envelope_stable (h : Bytes → Hdr) (hh : HdrStable h) (ok : Bytes → Bool) : Stable (envelope h ok) := by
   constructor
   · intro p f n hd
     unfold envelope at hd
     split at hd <;> try (simp at hd)
     rename_i m hm
-    split at hd <;> try (simp at hd)
-    rename_i hshort
     split at hd <;> simp at hd
     obtain ⟨_, rfl⟩ := hd
-    exact ⟨hh.pos p m hm, hso.le _ _ (by simpa using hshort)⟩
+    exact hh.pos p m hm
   · intro p f n e hd
     unfold envelope at hd ⊢
     split at hd <;> try (simp at hd)
     rename_i m hm
-    split at hd <;> try (simp at hd)
-    rename_i hshort
     split at hd <;> simp at hd
     rename_i hok
     obtain ⟨rfl, rfl⟩ := hd
-    have hs : short p.length m = false := by simpa using hshort
-    have hle := hso.le _ _ hs
+    have hle := (hh.pos p m hm).2
     rw [hh.ext p m e hm]
-    simp only [List.length_append, hso.mono _ _ e.length hs, Bool.false_eq_true, ↓reduceIte,
-      List.take_append_of_le_length hle, hok]
+    simp only [List.take_append_of_le_length hle, hok, ↓reduceIte]
   · intro p e hd
     unfold envelope at hd ⊢
     split at hd <;> try (simp at hd)
     · rename_i hm; rw [hh.errExt p e hm]
     · rename_i m hm
-      split at hd <;> try (simp at hd)
-      rename_i hshort
-      have hs : short p.length m = false := by simpa using hshort
-      have hle := hso.le _ _ hs
+      have hle := (hh.pos p m hm).2
       rw [hh.ext p m e hm]
-      simp only [List.length_append, hso.mono _ _ e.length hs, Bool.false_eq_true, ↓reduceIte,
-        List.take_append_of_le_length hle, hd]
+      simp only [List.take_append_of_le_length hle, hd]
+      simp
 
 /-- a stream made of frames each of which the decoder accepts in isolation, followed by a tail on which the decoder
 asks for more data, dispatches to exactly those frames, in order, each once, and leaves exactly the tail. -/
